@@ -214,11 +214,15 @@ def gen_ops(rng, drv, st, length):
         if k == "insert":
             x = a + (b - a) * rng.choice(GRID)
             if bad:
-                op = ("insert", rng.choice([[b + 1], [x] * (p + 2), [a]]))
+                lo = a + (x - a) / 2          # a legal node that sorts before the illegal one (multi-step atomicity)
+                op = ("insert", rng.choice([[b + 1], [x] * (p + 2), [a], [lo, b + 1], [lo] + [x] * (p + 2), [lo, b], [a, b]]))
             else:
                 op = ("insert", [x] * rng.randint(1, max(1, min(2, p + 1 - U.count(x)))))
         elif k == "remove":
-            if bad or len(knots) <= 2:
+            if bad and len(knots) > 2 and rng.random() < 0.5:
+                k0 = rng.choice(knots[1:-1])
+                op = ("remove", [k0, rng.choice([a + (b - a) * F(1, 977), b])], rng.choice(["default", None, F(1000)]))
+            elif bad or len(knots) <= 2:
                 op = ("remove", [rng.choice([a, b, a + (b - a) * F(1, 977)])], "default")
             else:
                 op = ("remove", [rng.choice(knots[1:-1])], rng.choice(["default", "default", None, F(1000)]))
